@@ -24,6 +24,28 @@ def is_new_helper(fn) -> bool:
     return fn is not None and fn.qualname not in _PINNED and not fn.module.is_test
 
 
+def _new_record_classes(p) -> Dict[str, Tuple[str, ...]]:
+    """NamedTuple / dataclass classes without an __init__ of their own and without properties that did not exist on the pinned
+    tree: qualified name -> field names in constructor order"""
+    import json, os
+    with open(os.path.join(os.path.dirname(__file__), "pinned_functions.json")) as f:
+        pinned = set(json.load(f).get("classes", []))
+    out = {}
+    for c in p.classes.values():
+        if c.qualname in pinned or c.module.is_test or not (c.is_namedtuple or c.is_dataclass):
+            continue
+        if "__init__" in c.methods or "__new__" in c.methods or "__post_init__" in c.methods or "__getitem__" in c.methods:
+            continue
+        params = p.constructor_params(c)
+        if not params:
+            continue
+        names = tuple(q.name for q in params)
+        if any(n in c.methods for n in names):
+            continue
+        out[c.qualname] = names
+    return out
+
+
 def _new_property_names(ctx) -> set:
     names = getattr(ctx, "_new_props", None)
     if names is None:
@@ -39,6 +61,8 @@ class Ctx:
         self.p = program or Program(overlay=overlay)
         self.t = Types(self.p)
         self.cg = CallGraph(self.p, self.t)
+        T.RECORD_CLASSES.clear()
+        T.RECORD_CLASSES.update(_new_record_classes(self.p))
 
 
 _SEQ_BUILTINS = {"list", "sorted", "str", "tuple", "reversed"}
@@ -253,6 +277,13 @@ class Normalizer:
             return T.p_neg(v)
         if isinstance(e.op, ast.UAdd):
             return v
+        # ~ on an element-wise comparison (a boolean mask) is the complementary comparison; ~~m is m
+        if v[0] == "eq":
+            return T.mk_ne(v[1], v[2])
+        if v[0] == "ne":
+            return T.mk_eq(v[1], v[2])
+        if v[0] == "call" and v[1] == "~" and len(v[2]) == 1:
+            return v[2][0]
         return ("call", "~", (v,), ())
 
     def n_BinOp(self, e, b):
@@ -594,6 +625,12 @@ class Normalizer:
                     return r
             return ("app", c.fn.qualname, recv, self._bound(params, e))
         dotted = self._dotted_external(f)
+        if dotted in ("functools.partial", "partial"):
+            lam_ast = self._as_lambda_ast(e)
+            if lam_ast is not None:
+                ast.copy_location(lam_ast, e)
+                ast.fix_missing_locations(lam_ast)
+                return self.norm(lam_ast)
         if dotted in ("operator.attrgetter", "attrgetter", "operator.methodcaller", "methodcaller", "operator.itemgetter",
                       "itemgetter") and not e.keywords:
             lam_ast = self._as_lambda_ast(e)
@@ -692,6 +729,11 @@ class Normalizer:
             return f if len(f.args.args) == 1 else None
         if isinstance(f, (ast.Name, ast.Attribute)):
             return lam(ast.Call(func=f, args=[ast.Name(id="__op", ctx=ast.Load())], keywords=[]))
+        if isinstance(f, ast.Call) and self._dotted_external(f.func) in ("functools.partial", "partial") and f.args \
+                and not any(isinstance(a, ast.Starred) for a in f.args) and not any(k.arg is None for k in f.keywords):
+            # partial(g, a, b, k=c)  ==  lambda x: g(a, b, x, k=c)      (as far as one further positional argument goes)
+            return lam(ast.Call(func=f.args[0], args=list(f.args[1:]) + [ast.Name(id="__op", ctx=ast.Load())],
+                                keywords=list(f.keywords)))
         if isinstance(f, ast.Call) and not f.keywords:
             name = self._dotted_external(f.func)
             x = ast.Name(id="__op", ctx=ast.Load())
